@@ -47,14 +47,25 @@ func hexPts(ps []s2.Point) []string {
 	return out
 }
 
+// perKind caps the number of reported violations of one kind (the collector keeps 20 in total).
+var perKind = map[string]int{}
+
+func violate(c *vkit.Collector, kind, desc string, replay interface{}) {
+	perKind[kind]++
+	if perKind[kind] <= 2 {
+		c.Violate(kind, desc, replay)
+	}
+}
+
 func run(c *vkit.Collector, rng *vkit.Rng, budget int) {
+	beyondLimits(c, rng, budget)
 	floatBits(c, rng, budget)
 	primitives(c, rng, budget)
 	piqiExact(c, rng, budget)
 	simpleTypes(c, rng, budget)
 	loops(c, rng, budget)
 	polygons(c, rng, budget)
-	beyondLimits(c, rng, budget)
+	c.Extra["violations_by_kind"] = perKind
 }
 
 // ---- H_f64_frombits_bits / H_f64_eqb_bits: the two conversions of Base/GoPrim.v ----
@@ -84,10 +95,10 @@ func checkCentre(c *vkit.Collector, p s2.Point) {
 	want := s2.Point{Vector: s2.VerifC09FaceSiTiToXYZ(f, si, ti).Normalize()}
 	got := s2.VerifC09FacePiQiToXYZ(f, s2.VerifC09SiTiToPiQi(si, lv), s2.VerifC09SiTiToPiQi(ti, lv), lv)
 	if !ptEq(want, got) {
-		c.Violate("H_piqi_exact", "an accepted cell centre is not reconstructed bit for bit", map[string]interface{}{"p": hexPts([]s2.Point{p}), "face": f, "si": si, "ti": ti, "level": lv})
+		violate(c, "H_piqi_exact", "an accepted cell centre is not reconstructed bit for bit", map[string]interface{}{"p": hexPts([]s2.Point{p}), "face": f, "si": si, "ti": ti, "level": lv})
 	}
 	if p.Vector != got.Vector {
-		c.Violate("H_piqi_exact", "an accepted cell centre is not == its reconstruction", map[string]interface{}{"p": hexPts([]s2.Point{p}), "face": f, "si": si, "ti": ti, "level": lv})
+		violate(c, "H_piqi_exact", "an accepted cell centre is not == its reconstruction", map[string]interface{}{"p": hexPts([]s2.Point{p}), "face": f, "si": si, "ti": ti, "level": lv})
 	}
 }
 
@@ -105,7 +116,7 @@ func primitives(c *vkit.Collector, rng *vkit.Rng, budget int) {
 		c.Check(fmt.Sprintf("zigzagEncode %d", x), vkit.App("Z.eqb", vkit.App("s2_zigzagEncode", vkit.Z(int64(x))), vkit.U(uint64(z))))
 		c.Check(fmt.Sprintf("zigzagDecode %d", z), vkit.App("Z.eqb", vkit.App("s2_zigzagDecode", vkit.U(uint64(z))), vkit.Z(int64(s2.VerifC09ZigzagDecode(z)))))
 		if s2.VerifC09ZigzagDecode(z) != x {
-			c.Violate("zigzag", "zigzagDecode(zigzagEncode(x)) != x", map[string]interface{}{"x": x})
+			violate(c, "zigzag", "zigzagDecode(zigzagEncode(x)) != x", map[string]interface{}{"x": x})
 		}
 		u := uint32(rng.U64())
 		c.Check(fmt.Sprintf("zigzagDecode %d", u), vkit.App("Z.eqb", vkit.App("s2_zigzagDecode", vkit.U(uint64(u))), vkit.Z(int64(s2.VerifC09ZigzagDecode(u)))))
@@ -121,7 +132,7 @@ func primitives(c *vkit.Collector, rng *vkit.Rng, budget int) {
 		c.Check(fmt.Sprintf("interleave %d %d", a, b), vkit.App("Z.eqb", vkit.App("s2_interleaveUint32", vkit.U(uint64(a)), vkit.U(uint64(b))), vkit.U(v)))
 		x, y := s2.VerifC09Deinterleave(v)
 		if x != a || y != b {
-			c.Violate("interleave", "deinterleave(interleave(a,b)) != (a,b)", map[string]interface{}{"a": a, "b": b})
+			violate(c, "interleave", "deinterleave(interleave(a,b)) != (a,b)", map[string]interface{}{"a": a, "b": b})
 		}
 		w := rng.U64()
 		x, y = s2.VerifC09Deinterleave(w)
@@ -147,7 +158,7 @@ func primitives(c *vkit.Collector, rng *vkit.Rng, budget int) {
 		c.Eval(fmt.Sprintf("nth:%d:%v", n, xs), true)
 		for i := range xs {
 			if dec[i] != xs[i] {
-				c.Violate("nthDerivativeCoder", "decode(encode(xs)) != xs", map[string]interface{}{"n": n, "xs": xs})
+				violate(c, "nthDerivativeCoder", "decode(encode(xs)) != xs", map[string]interface{}{"n": n, "xs": xs})
 				break
 			}
 		}
@@ -203,16 +214,16 @@ func piqiExact(c *vkit.Collector, rng *vkit.Rng, budget int) {
 		c.Eval("piqi", false)
 		if !bitsEq(s2.VerifC09PiQiToST(pi, level), s2.VerifC09SiTiToST(si)) {
 			bad++
-			c.Violate("H_piqi_exact", "piQiToST(pi,level) != siTiToST((2pi+1)<<(30-level))", map[string]interface{}{"pi": pi, "level": level})
+			violate(c, "H_piqi_exact", "piQiToST(pi,level) != siTiToST((2pi+1)<<(30-level))", map[string]interface{}{"pi": pi, "level": level})
 		}
 		want := s2.Point{Vector: s2.VerifC09FaceSiTiToXYZ(face, si, ti).Normalize()}
 		got := s2.VerifC09FacePiQiToXYZ(face, pi, qi, level)
 		if !ptEq(want, got) {
 			bad++
-			c.Violate("H_piqi_exact", "facePiQitoXYZ != faceSiTiToXYZ.Normalize() bit for bit", map[string]interface{}{"face": face, "pi": pi, "qi": qi, "level": level})
+			violate(c, "H_piqi_exact", "facePiQitoXYZ != faceSiTiToXYZ.Normalize() bit for bit", map[string]interface{}{"face": face, "pi": pi, "qi": qi, "level": level})
 		}
 		if s2.VerifC09SiTiToPiQi(si, level) != pi {
-			c.Violate("siTitoPiQi", "siTitoPiQi((2pi+1)<<(30-level)) != pi", map[string]interface{}{"pi": pi, "level": level})
+			violate(c, "siTitoPiQi", "siTitoPiQi((2pi+1)<<(30-level)) != pi", map[string]interface{}{"pi": pi, "level": level})
 		}
 		if k%400 == 0 {
 			// the same identity inside the model (translated functions), as a [T] case
@@ -226,7 +237,7 @@ func piqiExact(c *vkit.Collector, rng *vkit.Rng, budget int) {
 				vkit.App("xfst_eqb", vkit.App("xyz_face_siti", cg.InZ(cg.PointT(got))),
 					vkit.App("mkxfst", cg.InZ(cg.PointT(got)), vkit.Z(int64(f2)), vkit.U(uint64(s2i)), vkit.U(uint64(t2i)), vkit.Z(int64(lv)))))
 			if lv != level || f2 != face || s2i != si || t2i != ti {
-				c.Violate("xyzToFaceSiTi", "a cell centre is not recognised at its level", map[string]interface{}{"face": face, "si": si, "ti": ti, "level": level, "got": []int64{int64(f2), int64(s2i), int64(t2i), int64(lv)}})
+				violate(c, "xyzToFaceSiTi", "a cell centre is not recognised at its level", map[string]interface{}{"face": face, "si": si, "ti": ti, "level": level, "got": []int64{int64(f2), int64(s2i), int64(t2i), int64(lv)}})
 			}
 		}
 	}
@@ -250,10 +261,10 @@ func simpleTypes(c *vkit.Collector, rng *vkit.Rng, budget int) {
 			c.Eval("point:"+cg.PointT(p), true)
 			rep := map[string]interface{}{"type": "Point", "bits": hexPts([]s2.Point{p}), "bytes": fmt.Sprintf("%x", b)}
 			if err != nil || derr != nil || !ptEq(p, q) {
-				c.Violate("Point.roundtrip", fmt.Sprintf("decode(encode(p)) != p (%v %v)", err, derr), rep)
+				violate(c, "Point.roundtrip", fmt.Sprintf("decode(encode(p)) != p (%v %v)", err, derr), rep)
 			}
 			if !bytes.Equal(b, b2) {
-				c.Violate("Point.deterministic", "two encodings differ", rep)
+				violate(c, "Point.deterministic", "two encodings differ", rep)
 			}
 			c.Check("encode_point "+cg.PointT(p), vkit.App("bytes_eqb", vkit.App("encode_point", cg.InZ(cg.PointT(p))), cg.InZ(cg.BytesT(b))))
 			c.Check("decode_point "+cg.PointT(p), vkit.App("result_eqb point_eqb", vkit.App("decode_point", cg.InZ(cg.BytesT(b))), vkit.App("Ok", cg.InZ(cg.PointT(q)))))
@@ -269,7 +280,7 @@ func simpleTypes(c *vkit.Collector, rng *vkit.Rng, budget int) {
 			c1, r1 := s2.VerifC09CapFields(v)
 			c2, r2 := s2.VerifC09CapFields(q)
 			if err != nil || derr != nil || !ptEq(c1, c2) || !bitsEq(r1, r2) {
-				c.Violate("Cap.roundtrip", "decode(encode(cap)) != cap", map[string]interface{}{"type": "Cap", "term": cg.CapT(v)})
+				violate(c, "Cap.roundtrip", "decode(encode(cap)) != cap", map[string]interface{}{"type": "Cap", "term": cg.CapT(v)})
 			}
 			c.Check("encode_cap "+cg.CapT(v), vkit.App("bytes_eqb", vkit.App("encode_cap", cg.InZ(cg.CapT(v))), cg.InZ(cg.BytesT(b))))
 			c.Check("decode_cap "+cg.CapT(v), vkit.App("result_eqb cap_eqb", vkit.App("decode_cap", cg.InZ(cg.BytesT(b))), vkit.App("Ok", cg.InZ(cg.CapT(q)))))
@@ -283,7 +294,7 @@ func simpleTypes(c *vkit.Collector, rng *vkit.Rng, budget int) {
 			c.Class("rect")
 			c.Eval("rect:"+cg.RectT(v), true)
 			if err != nil || derr != nil || !rectEq(v, q) {
-				c.Violate("Rect.roundtrip", "decode(encode(rect)) != rect", map[string]interface{}{"type": "Rect", "term": cg.RectT(v)})
+				violate(c, "Rect.roundtrip", "decode(encode(rect)) != rect", map[string]interface{}{"type": "Rect", "term": cg.RectT(v)})
 			}
 			c.Check("encode_rect "+cg.RectT(v), vkit.App("bytes_eqb", vkit.App("encode_rect", cg.InZ(cg.RectT(v))), cg.InZ(cg.BytesT(b))))
 			c.Check("decode_rect "+cg.RectT(v), vkit.App("result_eqb rect_eqb", vkit.App("decode_rect", cg.InZ(cg.BytesT(b))), vkit.App("Ok", cg.InZ(cg.RectT(q)))))
@@ -297,7 +308,7 @@ func simpleTypes(c *vkit.Collector, rng *vkit.Rng, budget int) {
 			c.Class("cellid")
 			c.Eval(fmt.Sprintf("cellid:%x", uint64(id)), true)
 			if err != nil || derr != nil || q != id {
-				c.Violate("CellID.roundtrip", "decode(encode(id)) != id", map[string]interface{}{"type": "CellID", "id": uint64(id)})
+				violate(c, "CellID.roundtrip", "decode(encode(id)) != id", map[string]interface{}{"type": "CellID", "id": uint64(id)})
 			}
 			c.Check(fmt.Sprintf("encode_cellid %x", uint64(id)), vkit.App("bytes_eqb", vkit.App("encode_cellid", cg.U64T(uint64(id))), cg.InZ(cg.BytesT(b))))
 			c.Check(fmt.Sprintf("decode_cellid %x", uint64(id)), vkit.App("result_eqb Z.eqb", vkit.App("decode_cellid", cg.InZ(cg.BytesT(b))), vkit.App("Ok", cg.U64T(uint64(q)))))
@@ -308,7 +319,7 @@ func simpleTypes(c *vkit.Collector, rng *vkit.Rng, budget int) {
 				derr := cq.Decode(bytes.NewReader(cb))
 				c.Class("cell")
 				if err != nil || derr != nil || cq != cell {
-					c.Violate("Cell.roundtrip", "decode(encode(cell)) != cell", map[string]interface{}{"type": "Cell", "id": uint64(id)})
+					violate(c, "Cell.roundtrip", "decode(encode(cell)) != cell", map[string]interface{}{"type": "Cell", "id": uint64(id)})
 				}
 				c.Check(fmt.Sprintf("encode_cell %x", uint64(id)), vkit.App("bytes_eqb", vkit.App("encode_cell", cg.U64T(uint64(id))), cg.InZ(cg.BytesT(cb))))
 				c.Check(fmt.Sprintf("decode_cell %x", uint64(id)), vkit.App("result_eqb Z.eqb", vkit.App("decode_cell", cg.InZ(cg.BytesT(cb))), vkit.App("Ok", cg.U64T(uint64(cq.ID())))))
@@ -334,7 +345,7 @@ func simpleTypes(c *vkit.Collector, rng *vkit.Rng, budget int) {
 				same = q[i] == cu[i]
 			}
 			if err != nil || derr != nil || !same {
-				c.Violate("CellUnion.roundtrip", "decode(encode(cu)) != cu", map[string]interface{}{"type": "CellUnion", "ids": cg.CellIDsT(cu)})
+				violate(c, "CellUnion.roundtrip", "decode(encode(cu)) != cu", map[string]interface{}{"type": "CellUnion", "ids": cg.CellIDsT(cu)})
 			}
 			c.Check("encode_cellunion "+cg.CellIDsT(cu), vkit.App("bytes_eqb", vkit.App("encode_cellunion", cg.InZ(cg.CellIDsT(cu))), cg.InZ(cg.BytesT(b))))
 			c.Check("decode_cellunion "+cg.CellIDsT(cu), vkit.App("result_eqb (list_eqb Z.eqb)", vkit.App("decode_cellunion", cg.InZ(cg.BytesT(b))), vkit.App("Ok", cg.InZ(cg.CellIDsT(q)))))
@@ -352,7 +363,7 @@ func simpleTypes(c *vkit.Collector, rng *vkit.Rng, budget int) {
 			c.Class(fmt.Sprintf("polyline:%d", len(pl)))
 			c.Eval("polyline:"+cg.PointsT(pl), len(pl) > 0)
 			if err != nil || derr != nil || !ptsEq(pl, q) {
-				c.Violate("Polyline.roundtrip", "decode(encode(polyline)) != polyline", map[string]interface{}{"type": "Polyline", "bits": hexPts(pl)})
+				violate(c, "Polyline.roundtrip", "decode(encode(polyline)) != polyline", map[string]interface{}{"type": "Polyline", "bits": hexPts(pl)})
 			}
 			c.Check("encode_polyline", vkit.App("bytes_eqb", vkit.App("encode_polyline", cg.InZ(cg.PointsT(pl))), cg.InZ(cg.BytesT(b))))
 			c.Check("decode_polyline", vkit.App("result_eqb (list_eqb point_eqb)", vkit.App("decode_polyline", cg.InZ(cg.BytesT(b))), vkit.App("Ok", cg.InZ(cg.PointsT(q)))))
@@ -390,14 +401,14 @@ func loops(c *vkit.Collector, rng *vkit.Rng, budget int) {
 		vs, _, _, _ := s2.VerifC09LoopFields(l)
 		rep := map[string]interface{}{"type": "Loop", "class": class, "vertices": hexPts(vs), "bytes_prefix": fmt.Sprintf("%x", b[:min(len(b), 64)])}
 		if err != nil || derr != nil {
-			c.Violate("Loop.roundtrip", fmt.Sprintf("encode/decode error %v %v", err, derr), rep)
+			violate(c, "Loop.roundtrip", fmt.Sprintf("encode/decode error %v %v", err, derr), rep)
 			continue
 		}
 		if ok, what := loopFieldsEq(l, q); !ok {
-			c.Violate("Loop.roundtrip", "decode(encode(loop)) differs in "+what, rep)
+			violate(c, "Loop.roundtrip", "decode(encode(loop)) differs in "+what, rep)
 		}
 		if !bytes.Equal(b, b2) {
-			c.Violate("Loop.deterministic", "two encodings differ", rep)
+			violate(c, "Loop.deterministic", "two encodings differ", rep)
 		}
 		c.Sample(map[string]interface{}{"type": "Loop", "class": class, "nvertices": l.NumVertices(), "bytes": len(b)})
 		c.Check("encode_loop "+class, vkit.App("bytes_eqb", vkit.App("encode_loop", cg.InZ(cg.LoopT(l))), cg.InZ(cg.BytesT(b))))
@@ -416,7 +427,7 @@ func polygons(c *vkit.Collector, rng *vkit.Rng, budget int) {
 		c.Class(class)
 		loopsP, hh, bound, nv := s2.VerifC09PolygonFields(p)
 		if err != nil || len(b) == 0 {
-			c.Violate("Polygon.encode", fmt.Sprintf("encode error %v", err), map[string]interface{}{"class": class})
+			violate(c, "Polygon.encode", fmt.Sprintf("encode error %v", err), map[string]interface{}{"class": class})
 			continue
 		}
 		format := "lossless"
@@ -435,18 +446,18 @@ func polygons(c *vkit.Collector, rng *vkit.Rng, budget int) {
 		}
 		c.Sample(map[string]interface{}{"type": "Polygon", "class": class, "format": format, "nloops": len(loopsP), "nvertices": nv, "bytes": len(b)})
 		if !bytes.Equal(b, b2) {
-			c.Violate("Polygon.deterministic", "two encodings differ", rep)
+			violate(c, "Polygon.deterministic", "two encodings differ", rep)
 		}
 		// [T] bytes
 		c.Check("encode_polygon "+class+" "+format, vkit.App("opt_eqb bytes_eqb", vkit.App("encode_polygon", cg.InZ(cg.PolygonT(p))), vkit.App("Some", cg.InZ(cg.BytesT(b)))))
 		if derr != nil {
-			c.Violate("Polygon.roundtrip", fmt.Sprintf("decode(encode(p)) fails: %v", derr), rep)
+			violate(c, "Polygon.roundtrip", fmt.Sprintf("decode(encode(p)) fails: %v", derr), rep)
 			continue
 		}
 		qloops, qhh, qbound, _ := s2.VerifC09PolygonFields(q)
 		// [S] field by field
 		if len(qloops) != len(loopsP) {
-			c.Violate("Polygon.roundtrip", "loop count differs", rep)
+			violate(c, "Polygon.roundtrip", "loop count differs", rep)
 			continue
 		}
 		var terms []string
@@ -462,7 +473,7 @@ func polygons(c *vkit.Collector, rng *vkit.Rng, budget int) {
 			if len(va) == 0 && format == "compressed" {
 				// a loop without vertices does not survive the compressed format (initBound turns it into the empty loop)
 				if len(vb) != 0 || da != db || oa != ob {
-					c.Violate("Polygon.compressed.zeroVertexLoop", "a loop with 0 vertices decodes as the 1-vertex empty loop (depth and origin flag reset)", r2)
+					violate(c, "Polygon.compressed.zeroVertexLoop", "a loop with 0 vertices decodes as the 1-vertex empty loop (depth and origin flag reset)", r2)
 				}
 				continue
 			}
@@ -473,24 +484,24 @@ func polygons(c *vkit.Collector, rng *vkit.Rng, budget int) {
 					onlyZeroSign = va[j].Vector == vb[j].Vector
 				}
 				if onlyZeroSign {
-					c.Violate("Polygon.compressed.zeroSign", "vertex coordinates come back == but not bit-identical: +0 becomes -0 for face centres (xyzToFaceSiTi compares with ==)", r2)
+					violate(c, "Polygon.compressed.zeroSign", "vertex coordinates come back == but not bit-identical: +0 becomes -0 for face centres (xyzToFaceSiTi compares with ==)", r2)
 				} else {
-					c.Violate("Polygon.roundtrip", "vertices differ", r2)
+					violate(c, "Polygon.roundtrip", "vertices differ", r2)
 				}
 			}
 			if oa != ob {
-				c.Violate("Polygon.roundtrip", "originInside differs", r2)
+				violate(c, "Polygon.roundtrip", "originInside differs", r2)
 			}
 			if da != db {
-				c.Violate("Polygon.roundtrip", "depth differs", r2)
+				violate(c, "Polygon.roundtrip", "depth differs", r2)
 			}
 			if (format == "lossless" || boundEnc) && !rectEq(ba, bb) {
-				c.Violate("Polygon.roundtrip", "encoded loop bound differs", r2)
+				violate(c, "Polygon.roundtrip", "encoded loop bound differs", r2)
 			}
 		}
 		if format == "lossless" {
 			if hh != qhh || !rectEq(bound, qbound) {
-				c.Violate("Polygon.roundtrip", "hasHoles/bound differ", rep)
+				violate(c, "Polygon.roundtrip", "hasHoles/bound differ", rep)
 			}
 			c.Check("decode_polygon "+class+" lossless", vkit.App("result_eqb dpolygon_eqb", vkit.App("decode_polygon", cg.InZ(cg.BytesT(b))), vkit.App("Ok", vkit.App("DLossless", cg.InZ(cg.PolygonT(q))))))
 		} else {
@@ -515,10 +526,10 @@ func beyondLimits(c *vkit.Collector, rng *vkit.Rng, budget int) {
 		c.Eval(fmt.Sprintf("cellunion-size:%d", n), true)
 		c.Class(fmt.Sprintf("cellunion:%d", n))
 		if err == nil && derr != nil {
-			c.Violate("CellUnion.encode.noLimit", fmt.Sprintf("a CellUnion of %d cells encodes without error but its encoding does not decode: %v", n, derr), map[string]interface{}{"type": "CellUnion", "ncells": n})
+			violate(c, "CellUnion.encode.noLimit", fmt.Sprintf("a CellUnion of %d cells encodes without error but its encoding does not decode: %v", n, derr), map[string]interface{}{"type": "CellUnion", "ncells": n})
 		}
 		if err == nil && derr == nil && len(q) != n {
-			c.Violate("CellUnion.roundtrip", "length differs", map[string]interface{}{"ncells": n})
+			violate(c, "CellUnion.roundtrip", "length differs", map[string]interface{}{"ncells": n})
 		}
 	}
 }
